@@ -92,6 +92,18 @@ PROPS["C20"] = dict(
     note="Trusted: posixpath contracts (bounded validation), path.Path delegating to posixpath, solvers, pyvc.",
 )
 
+PROPS["C12"] = dict(
+    modules=["contracts.sched_sql", "contracts.C12_limits"],
+    decided=["a step is moved to RUNNING only if it is safe (including holds) and every required resource is defined and "
+             "not over-committed by RUNNING steps (SQL, exact)", "the invariant used <= available is preserved by the "
+             "dispatch transaction", "job_loop starts a job only below the job limit", "hold/release counter contracts"],
+    undecided=["'at no instant' across real time: commands are OS processes; the model ends at the launch event"],
+    assumptions=["SUM of units does not overflow 64 bits", "CHECK constraints of the step table"],
+    level="The dispatch query and its resource subquery are proved equivalent to the property's predicates for all rows; "
+          "the job limit is a guard-dominance obligation on the real job_loop; hold counters are function contracts.",
+    note="Trusted: SQLite statement semantics, asyncio single-threadedness between awaits, solvers, pyvc.",
+)
+
 NOT_BUILT = {}
 
 _loaded = False
